@@ -117,16 +117,20 @@ def main():
         print(json.dumps(res, indent=1))
         if a.keep:
             dst = os.path.join(V, "seeded", a.keep)
-            shutil.rmtree(dst, ignore_errors=True)
-            os.makedirs(dst)
-            for f in glob.glob(os.path.join(src, "*")):
-                if os.path.isdir(f):
-                    shutil.copytree(f, os.path.join(dst, os.path.basename(f)))
-                else:
-                    shutil.copy(f, dst)
+            if os.path.realpath(dst) != os.path.realpath(src):
+                shutil.rmtree(dst, ignore_errors=True)
+                os.makedirs(dst)
+                for f in glob.glob(os.path.join(src, "*")):
+                    if os.path.isdir(f):
+                        shutil.copytree(f, os.path.join(dst, os.path.basename(f)))
+                    else:
+                        shutil.copy(f, dst)
+            meta.pop("validation", None)
             meta["validation"] = res
             json.dump(meta, open(os.path.join(dst, "meta.json"), "w"), indent=1)
     finally:
+        import hashlib
+        shutil.rmtree(os.path.join(V, ".build", "scratch-" + hashlib.md5(os.path.realpath(os.path.join(tmp, "mut")).encode()).hexdigest()[:10]), ignore_errors=True)
         shutil.rmtree(tmp, ignore_errors=True)
     return 0
 
